@@ -74,19 +74,41 @@ def _rn(t, sym, rename):
     return t
 
 
-def _effect(st, sym, rename):
+PURE_CALLS = {"len", "min", "max", "sorted", "set", "frozenset", "list", "tuple", "str", "bool", "int", "isinstance", "any", "all", "sum", "reversed", "enumerate", "zip", "range", "repr"}
+
+
+def _effect(st, sym, rename, with_node=False):
     """effect of one simple statement on some set, or None"""
+    out = None
     if isinstance(st, ast.Expr) and isinstance(st.value, ast.Call) and isinstance(st.value.func, ast.Attribute):
         c = st.value
         m = c.func.attr
         if m in ("add", "update", "append", "extend", "discard", "remove", "clear", "difference_update", "intersection_update") and len(c.args) <= 1:
             op = {"add": "add", "update": "merge"}.get(m, "other:" + m)
-            return (op, _txt(c.func.value, st, sym, rename), _txt(c.args[0], st, sym, rename) if c.args else "")
-    if isinstance(st, ast.AugAssign) and isinstance(st.op, ast.BitOr):
-        return ("merge", _txt(st.target, st, sym, rename), _txt(st.value, st, sym, rename))
-    if isinstance(st, ast.AugAssign) and isinstance(st.op, (ast.Sub, ast.BitAnd, ast.BitXor)):
-        return ("other:" + type(st.op).__name__, _txt(st.target, st, sym, rename), _txt(st.value, st, sym, rename))
-    return None
+            arg = expand_at(c.args[0], st) if c.args else None
+            out = (op, _txt(c.func.value, st, sym, rename), _rn(norm(arg), sym, rename) if arg is not None else "", arg)
+    elif isinstance(st, ast.AugAssign) and isinstance(st.op, ast.BitOr):
+        arg = expand_at(st.value, st)
+        out = ("merge", _txt(st.target, st, sym, rename), _rn(norm(arg), sym, rename), arg)
+    elif isinstance(st, ast.AugAssign) and isinstance(st.op, (ast.Sub, ast.BitAnd, ast.BitXor)):
+        out = ("other:" + type(st.op).__name__, _txt(st.target, st, sym, rename), _txt(st.value, st, sym, rename), None)
+    if out is None:
+        return None
+    return out if with_node else out[:3]
+
+
+def _impure_calls(node):
+    """calls inside `node` that are not known to be free of effects on sets"""
+    out = []
+    for c in ast.walk(node):
+        if isinstance(c, ast.Call):
+            if isinstance(c.func, ast.Name) and c.func.id in PURE_CALLS:
+                continue
+            if isinstance(c.func, ast.Attribute) and c.func.attr in ("get", "items", "keys", "values", "copy", "strip", "split", "startswith", "endswith", "union", "intersection",
+                                                                     "difference", "issubset", "issuperset", "isdisjoint", "index", "count", "format", "join"):
+                continue
+            out.append(c)
+    return out
 
 
 class _Run:
@@ -142,6 +164,8 @@ class _Run:
             return [(True, [(txt, True)]), (False, [(txt, False)])]
         if isinstance(t, ast.Constant):
             return [(bool(t.value), [])]
+        if _impure_calls(t):
+            raise Unknown(f"call in the test `{norm(t)[:50]}`")
         txt = _txt(t, t, self.sym, self.rename)
         return [(True, [(txt, True)]), (False, [(txt, False)])]
 
@@ -181,16 +205,41 @@ class _Run:
             return [Path(eff, "fall", conds)]
         if isinstance(st, ast.Raise):
             return [Path(eff, "raise", conds)]
-        ef = _effect(st, self.sym, self.rename)
+        ef = _effect(st, self.sym, self.rename, with_node=True)
         if ef is not None:
-            return [Path(eff + [ef], "fall", conds)]
+            outs = []
+            for arg, c in self.arg_cases(ef[3]):
+                e3 = ef[:3]
+                if arg is not None:
+                    txt = _rn(norm(arg), self.sym, self.rename)
+                    if isinstance(arg, (ast.Tuple, ast.List, ast.Set)) and len(arg.elts) == 1 and ef[0] == "merge":
+                        e3 = ("add", ef[1], _rn(norm(arg.elts[0]), self.sym, self.rename))      # update((x,)) == add(x)
+                    else:
+                        e3 = (ef[0], ef[1], txt)
+                    if _impure_calls(arg):
+                        raise Unknown(f"call inside `{norm(st)[:50]}`")
+                outs.append(Path(eff + [e3], "fall", conds + c))
+            return outs
         if isinstance(st, ast.Assign) and all(isinstance(t, ast.Name) for t in st.targets):
+            bad = _impure_calls(st.value)
+            if bad:
+                raise Unknown(f"call `{norm(bad[0])[:50]}` (its effect on the sets is not known)")
             return [Path(eff, "fall", conds)]      # a local: read through its reaching definition where it is used
         if isinstance(st, ast.AugAssign) and isinstance(st.target, ast.Name) and isinstance(st.op, (ast.BitOr, ast.Add)) and not isinstance(st.value, (ast.Name, ast.Subscript, ast.Attribute, ast.Call)):
             return [Path(eff, "fall", conds)]      # a change flag such as `updated |= len(s) != n`
         if isinstance(st, ast.Expr) and isinstance(st.value, ast.Constant):
             return [Path(eff, "fall", conds)]
         raise Unknown(f"statement `{norm(st)[:60]}`")
+
+    def arg_cases(self, arg):
+        """a conditional expression as the argument of an effect is decided by the class of the symbol where possible"""
+        if arg is None or not isinstance(arg, ast.IfExp):
+            return [(arg, [])]
+        out = []
+        for tv, c in self._bool(arg.test):
+            for a2, c2 in self.arg_cases(arg.body if tv else arg.orelse):
+                out.append((a2, c + c2))
+        return out
 
 
 def _straight(stmts, sym, rename, stop_at=None):
